@@ -690,6 +690,10 @@ func c16Flow(c *Ctx) {
 				content[i] = normTerm(content[i])
 			}
 			wantContent := "io/fs.ReadFile#0(agent.SkillsFS(" + ag + "), " + walked + ")"
+			for i := range content {
+				// the embedded file system read through its own method: fs.ReadFile dispatches to it
+				content[i] = strings.Replace(content[i], "(embed.FS).ReadFile#0(", "io/fs.ReadFile#0(", 1)
+			}
 			content = uniq(content)
 			c.check(len(content) == 1 && content[0] == wantContent, "C16.3", where+":content", L.pos(cs.instr.Pos()),
 				"the installed bytes are exactly fs.ReadFile(embedded FS, walked path)", "content term: "+strings.Join(content, " | "))
